@@ -373,7 +373,7 @@ def run(ctx):
               workers=1, simulate=ctx.pick(400, 5000), depth=12, timeout=900)
     zgen = bg("CmapSizeGen: families at the 16-bit length boundary (closed form = reference encoding for small n)",
               "CmapSizeGen", cfg="CmapSizeGenN.cfg", workers=2, timeout=900,
-              files={"CmapSizeGenN.cfg": _cfg("CmapSizeGen.cfg").replace("Steps = {0}", "Steps = %s" % ctx.pick("{0}", "{0, 1, 2, 40}"))})
+              files={"CmapSizeGenN.cfg": _cfg("CmapSizeGen.cfg").replace("Steps = {0}", "Steps = %s" % ctx.pick("{0, 1}", "{0, 1, 2, 40}"))})
     nsim = ctx.pick(3000, 16000)
     sgens = [bg("CmapGen simulate (<= 4 blocks)", "CmapGen", workers=1, simulate=nsim, depth=40, timeout=1500)]
     if thorough:
@@ -559,23 +559,23 @@ def run(ctx):
     nselcalls = sum(m["calls"] * m["procs"] * (len(m["gets"]) + len(m["nolang"]) + 1) * 2 for m in merged)
 
     # ---- 4. TLC judges every recorded event
-    _validate_files(ctx, hfiles + [sfile], failures)
-    ctx.cov["traces_validated_against_impl"] += len(hcases) + len(selcases) * nproc
-    forget(hcases)
-    forget(selcases)
     label, fut = hreuse
     r = fut.result()
     _account(ctx, r, label)
     if r.violated != "ResultsStable":
         raise vlib.Infra("CmapHist with a re-used scratch buffer did not violate ResultsStable (%s): the model is vacuous"
                          % r.violated)
-    _validate_files(ctx, rfiles + zfiles + tfiles, failures, heap="6g")
-    ctx.cov["traces_validated_against_impl"] += len(rcases) + len(tcases) + len(rawcases) + len(zcases)
-    forget(tcases)
-    forget(rawcases)
-    forget(zcases)
     step = 20000
-    for a in range(0, len(scases), step):
+    first = scases[:step]
+    stfiles = drive("structs", first, "st0", ctx.pick(1200, 3000))
+    # big files first so that the pool stays busy
+    _validate_files(ctx, rfiles + zfiles + tfiles + stfiles + hfiles + [sfile], failures, heap="6g",
+                    par=max(2, min(12, (ctx.workers * 3) // 4)))
+    ctx.cov["traces_validated_against_impl"] += (len(rcases) + len(tcases) + len(rawcases) + len(zcases) + len(first)
+                                                 + len(hcases) + len(selcases) * nproc)
+    for cs in (tcases, rawcases, zcases, first, hcases, selcases):
+        forget(cs)
+    for a in range(step, len(scases), step):
         part = scases[a:a + step]
         files = drive("structs", part, "st%d" % (a // step), ctx.pick(1200, 3000))
         _validate_files(ctx, files, failures)
